@@ -173,6 +173,8 @@ def arity(s):
         n = len(s["bits"])
         is_ket = (kind == "Ket") != s["dagger"]
         return (0, n) if is_ket else (n, 0)
+    if kind == "custom":
+        return s["bits"][0], s["bits"][0]
     n = tk.N_QUBITS[kind] + (1 if s["controlled"] else 0)
     return n, n
 
@@ -188,6 +190,9 @@ def build(s):
         box = g.Ket(*s["bits"])
     elif kind == "Bra":
         box = g.Bra(*s["bits"])
+    elif kind == "custom":
+        # a gate of the user's own: only its array says what it is
+        box = g.QuantumGate("U", s["bits"][0], list(s["value"]))
     elif kind in tk.NAMED:
         box = getattr(g, kind)
     else:
@@ -207,7 +212,7 @@ def describe(s):
         text += "({!r})".format(s["phase"])
     if s["bits"] is not None:
         text += "({})".format(", ".join(map(str, s["bits"])))
-    if s["value"] is not None:
+    if s["value"] is not None and s["kind"] != "custom":
         text += "({!r})".format(s["value"])
     if s["controlled"]:
         text = "Controlled({}{})".format(
@@ -235,6 +240,9 @@ def oracle_matrix(s, mech=frozenset()):
         matrix = tk.ket(s["bits"])
     elif kind == "Bra":
         matrix = tk.bra(s["bits"])
+    elif kind == "custom":
+        n = s["bits"][0]
+        matrix = tk.from_discopy(numpy.array(s["value"]), n, n)
     else:
         matrix = tk.unitary(kind, s["phase"])
         if (kind == "Y" and M_Y in mech) or (kind == "Ry" and M_RY in mech):
@@ -603,11 +611,23 @@ def rewire_edges(rng, ctx, op, steps, n):
               circuit=safe_repr(rewired, 400))
 
 
+def rand_unitary(rng, n):
+    """ Flat array (discopy index order) of a random n-qubit unitary. """
+    size = 2 ** n
+    raw = numpy.array([[complex(rng.gauss(0, 1), rng.gauss(0, 1))
+                        for _ in range(size)] for _ in range(size)])
+    q, _ = numpy.linalg.qr(raw)
+    return tuple(complex(x) for x in q.flatten())
+
+
 def rand_gate(rng, width, scalars=True, kets=False):
     """ A random spec fitting `width` wires (offset chosen here). """
     for _ in range(50):
         r = rng.random()
-        if r < .22:
+        if r < .06:
+            n = rng.choice([1, 2, 2])
+            s = spec("custom", bits=(n,), value=rand_unitary(rng, n))
+        elif r < .22:
             s = spec(rng.choice(ONE_QUBIT_NAMED))
         elif r < .37:
             s = spec(rng.choice(TWO_QUBIT_NAMED))
